@@ -173,7 +173,15 @@ def run_check(prop_id, *, gen_cases, check_case, describe, required_hits=(),
     errors = []
     for res in par.pmap(check_case, order, jobs=args.jobs, chunksize=chunksize):
         if isinstance(res, par.Crash):
-            errors.append(res)
+            if res.lib_frame:
+                # the library itself raised inside a call the check expected to succeed: a behavioural deviation, not a harness bug
+                r = Result()
+                r.traces += 1
+                r.violation(f"unexpected exception from the library|{res.lib_frame}", f"{res.exc} (raised in {res.lib_frame.split(':')[0]} "
+                            f"during a call this check expects to succeed)\n{res.tb[-800:]}", res.case, None)
+                total.merge(r)
+            else:
+                errors.append(res)
         else:
             total.merge(res)
     if finalize is not None:
@@ -285,8 +293,12 @@ def _replay(prop_id, path, check_case):
         rec = json.load(f)
     try:
         res = check_case(rec["case"])
-    except Exception:
+    except Exception as e:
         traceback.print_exc()
+        if rec["site"].startswith("unexpected exception from the library|") and rec["site"].endswith(type(e).__name__):
+            print(f"VIOLATION property={prop_id} replay={path}")
+            print(f"    site: {rec['site']}\n    {type(e).__name__}: {e}")
+            return 1
         print(f"replay of {path}: harness error")
         return 2
     hit = [v for v in res.violations if v["site"] == rec["site"]]
